@@ -31,8 +31,9 @@ def hist_of(state):
     return streams, hist
 
 
-def scen(run, name, streams, hist, sync, rotate_at=0, truncate=False, recycle=0, maint=""):
-    return dict(run=run, name=name, sync=sync, streams=streams, hist=hist, rotate_at=rotate_at, truncate=truncate, recycle=recycle, maint=maint)
+def scen(run, name, streams, hist, sync, rotate_at=0, truncate=False, recycle=0, maint="", rotate_every=False):
+    return dict(run=run, name=name, sync=sync, streams=streams, hist=hist, rotate_at=rotate_at, truncate=truncate, recycle=recycle, maint=maint,
+                rotate_every=rotate_every)
 
 
 def run(ctx):
@@ -139,10 +140,16 @@ def run(ctx):
         k += 1
     # appends at random instants while the idle file is re-opened by maintenance every millisecond (a line that lands between the
     # size check on the old descriptor and the positioning of the new one must still be read); probabilistic: hundreds of re-opens
-    for i in range(3 if thorough else 1):
-        n = 1500 if thorough else 900
+    for i in range(10 if thorough else 3):
+        n = 900
         scs.append(scen(k, "append-storm-%d" % k, ["a"] * n, [["open", 0], ["append", 1], ["sleep", 50], ["storm", n - 2], ["sleep", 30]], True,
                         truncate=True, maint="1ms"))
+        k += 1
+    # rotation by rename + re-creation at the moment a file is being discovered: every line goes to a file of its own, the
+    # previous one renamed right before (the name is re-pointed between the notification's stat and the open: D22); probabilistic
+    for i in range(16 if thorough else 6):
+        n = 12
+        scs.append(scen(k, "rotate-every-line-%d" % k, ["a"] * n, [["open", 0]] + [["append", j] for j in range(1, n + 1)], True, rotate_every=True))
         k += 1
     # truncated in place and rewritten SHORTER than the saved offsets while file.d is down: the file must be started over
     for i in range(4 if thorough else 2):
